@@ -40,7 +40,8 @@ def apply_edit(src_root, mutant):
         pf = os.path.join(VERIF, mutant["patch"])
         if not os.path.exists(pf):
             return f"patch {mutant['patch']} missing"
-        r = subprocess.run(["git", "apply", "--whitespace=nowarn", pf], cwd=os.path.dirname(src_root), capture_output=True, text=True)
+        cmd = ["git", "apply", "--whitespace=nowarn"] + (["-R"] if mutant.get("reverse") else []) + [pf]
+        r = subprocess.run(cmd, cwd=os.path.dirname(src_root), capture_output=True, text=True)
         if r.returncode != 0:
             return "patch does not apply to this tree: " + r.stderr.strip()[:120]
         return None
